@@ -241,6 +241,47 @@ fn cli_level(rep: &Report) {
             }
         }
     });
+    // the reader of the stdout pipe goes away early (`kestrel decrypt ... | head -c N`): an exit status of 0 would report a
+    // success although not all of the plaintext was delivered; what was delivered is a prefix of P
+    {
+        let mut ljobs = vec![];
+        for mode in ["key", "pass"] {
+            // the undelivered rest (>= 127 KiB) exceeds the 64 KiB pipe buffer by far, so the writer cannot have finished
+            // before the reader left
+            for k in [0usize, 1, 4096] {
+                ljobs.push((mode, k));
+            }
+        }
+        ljobs.par_iter().for_each(|&(mode, k)| {
+            rep.eval(1);
+            rep.nontrivial(format!("cli-reader-leaves-{}-{}", mode, k).as_bytes());
+            let attempt = || -> Result<(), String> {
+                let sc = Scratch::new();
+                sc.write("in.ktl", if mode == "key" { &f } else { &q });
+                sc.write("kr.txt", kr_known.as_bytes());
+                let args: Vec<&str> = if mode == "key" { vec!["decrypt", "in.ktl", "-t", "bob", "-k", "kr.txt", "--env-pass"] } else { vec!["password", "decrypt", "in.ktl", "--env-pass"] };
+                let mut c = Cmd::new(&args).env("KESTREL_PASSWORD", if mode == "key" { "bobpw" } else { "filepw" });
+                c.stdout_reader_leaves_after = Some(k);
+                let out = proc::run(&c, &sc.0);
+                if out.timed_out || out.stderr.contains("panicked at") {
+                    return Err(format!("ill-behaved: {}", out.summary()));
+                }
+                if !p.starts_with(&out.stdout) {
+                    return Err("what reached the pipe is not a prefix of the authentic plaintext".into());
+                }
+                if out.ok() {
+                    return Err(format!("exit status 0 although the reader of the stdout pipe left after {} of the {} plaintext bytes (success reported without complete delivery)", k, p.len()));
+                }
+                Ok(())
+            };
+            if attempt().is_err() {
+                if let Err(e) = attempt() {
+                    rep.violation(&format!("C04/cli/reader-leaves/{}", mode), json!({"kind":"cli","name":format!("reader-leaves-{}-{}", mode, k)}), format!("kestrel {} decrypt of an authentic 3-chunk file to a stdout pipe: {}", mode, e));
+                }
+            }
+        });
+        rep.extra("cli_reader_leaves_cases", json!(ljobs.len()));
+    }
     rep.extra("cli_decrypt_cases", json!(jobs.len()));
     rep.sample(json!({"kind":"cli","case":"decrypt/corrupt-chunk-2/sender-unknown/stdout","expect":"exit 1; stdout holds exactly the first 65536 plaintext bytes"}));
 }
